@@ -64,7 +64,10 @@ pub fn case(ctx: &Ctx, env: &RealEnv, dir: &std::path::Path, case: u64, seed: u6
         return super::real_gated::c16_pty_case(ctx, env, dir, case, seed, rep);
     }
     // ---- many independent tasks with planned output, exit codes and signals
-    let ntasks = if ctx.thorough() { rng.range(8, 64) } else { rng.range(4, 20) };
+    // every other main case is a light one (few tasks, small outputs, no failing command), so that the
+    // second invocation with changed response files happens often
+    let light = case % 2 == 0;
+    let ntasks = if light { rng.range(2, 6) } else if ctx.thorough() { rng.range(8, 64) } else { rng.range(4, 20) };
     let mut p = Project { manifest: "build.ninja".into(), agent: env.agent.to_string_lossy().into_owned(), ..Default::default() };
     p.sources.push("in.txt".into());
     for i in 0..ntasks {
@@ -104,7 +107,7 @@ pub fn case(ctx: &Ctx, env: &RealEnv, dir: &std::path::Path, case: u64, seed: u6
                 s.iouts.push(format!("other{}/o{}c", i, i));
             }
         }
-        if rng.chance(1, 4) {
+        if rng.chance(if light { 3 } else { 1 }, 4) {
             let content = *rng.pick(&["a b c", "\"quoted\" 'single'", "é ビ 😀", "x  y   z", "-I. -DX=\"1 2\""]);
             s.rsp = Some((format!("rsp/dir{}/{}.rsp", i % 3, id), content.to_string()));
         }
@@ -123,7 +126,7 @@ pub fn case(ctx: &Ctx, env: &RealEnv, dir: &std::path::Path, case: u64, seed: u6
     for s in w.proj.steps.clone() {
         // output
         if rng.chance(3, 4) {
-            let total = *rng.pick(&SIZES);
+            let total = if light { *rng.pick(&[0usize, 1, 100, 5000]) } else { *rng.pick(&SIZES) };
             if total_out + total > (if ctx.thorough() { 4_000_000 } else { 1_200_000 }) {
                 continue;
             }
@@ -148,7 +151,7 @@ pub fn case(ctx: &Ctx, env: &RealEnv, dir: &std::path::Path, case: u64, seed: u6
             inv.outputs.insert(s.id.clone(), OutSpec { chunks, final_newline: rng.chance(2, 3) });
         }
         // status
-        match rng.below(10) {
+        match if light { 9 } else { rng.below(10) } {
             0 | 1 => {
                 inv.faults.insert(s.id.clone(), crate::model::FailMode::All);
                 let any = rng.range(1, 255) as i32;
